@@ -64,6 +64,13 @@ func main() {
 				f.WriteTo(os.Stdout)
 			}
 		}
+	case "layout":
+		p, err := Load(LoadOpts{Repo: os.Args[2]})
+		if err != nil {
+			fmt.Println(err)
+			os.Exit(1)
+		}
+		dumpLayout(p)
 	case "anchors":
 		p, err := Load(LoadOpts{Repo: os.Args[2]})
 		if err != nil {
